@@ -15,6 +15,7 @@ import (
 	operatortypes "github.com/ExocoreNetwork/exocore/x/operator/types"
 	"github.com/cosmos/cosmos-sdk/store/prefix"
 	sdk "github.com/cosmos/cosmos-sdk/types"
+	evmostypes "github.com/evmos/evmos/v16/types"
 )
 
 // UpdateOperatorUSDValue is a function to update the USD share for specified operator and Avs,
@@ -362,11 +363,18 @@ func (k *Keeper) CalculateUSDValueForOperator(
 				}
 				// TODO: for now, we ignore the error when the price round is not found and set the price to 1 to avoid panic
 			}
-			assetInfo, err := k.assetsKeeper.GetStakingAssetInfo(ctx, assetID)
-			if err != nil {
-				return err
+			if assetID == assetstype.ExocoreAssetID {
+				// the native token is not a registered client chain asset, so it has no
+				// staking asset info; without this an operator holding any native-token
+				// delegation could never be slashed (the whole slash failed here).
+				decimal = evmostypes.BaseDenomUnit
+			} else {
+				assetInfo, err := k.assetsKeeper.GetStakingAssetInfo(ctx, assetID)
+				if err != nil {
+					return err
+				}
+				decimal = assetInfo.AssetBasicInfo.Decimals
 			}
-			decimal = assetInfo.AssetBasicInfo.Decimals
 			ret.StakingAndWaitUnbonding = ret.StakingAndWaitUnbonding.Add(CalculateUSDValue(state.TotalAmount.Add(state.PendingUndelegationAmount), price.Value, decimal, price.Decimal))
 		} else {
 			if prices == nil {
